@@ -65,6 +65,10 @@ static unsigned int assemble_const(unsigned long constant,
  */
 static bool check_zero(struct instr *instruc, unsigned long saved_imm,
                        instr_type type) {
+  // only a 64-bit register can take an immediate wider than 32 bits
+  unsigned int opd0_mode = instruc->opd[0].reg & MODE_MASK;
+  if (instruc->mem_disp || (opd0_mode != reg64 && opd0_mode != ext64))
+    return false;
   // check for signed 32bit overflow
   if (IN_RANGE(saved_imm, NEG32BIT_CHECK, MAX_UNSIGNED_32BIT) &&
       !instruc->reduced_imm && type != CONTROL_FLOW) {
